@@ -529,6 +529,7 @@ void
         new_len = *prev_len;
     } else {
 	new_len = alpha * *prev_len;
+	if ( new_len <= *prev_len ) new_len = *prev_len + 1; /* 1.5 * 1 is 1 */
     }
     
     if ( type == LSUB || type == USUB ) lword = sizeof(int_t);
